@@ -229,6 +229,8 @@ def pairwise_cases(seed):
             vals = []
             for v in values:
                 kw, rkw, model, invalid, label = build(kind, name, v)
+                if kind == "ins" and name == "reparameterisation" and v is None:
+                    continue  # known finding (seed-dependent non-terminating draw): kept out of the combinations
                 if invalid or model or name in ("flow_proposal_class", "augment_dims", "generate_augment", "marginalise_augment", "model", "stopping_pairs", "run.redraw_samples", "run.compute_initial_posterior", "bootstrap", "train_final_flow", "prior_sampling"):
                     continue
                 vals.append((kw, rkw, label))
@@ -325,6 +327,8 @@ def worker(cfg):
     out = dict(label=cfg["label"], status=None, detail="", invalid=cfg["invalid"])
     try:
         res = runner(cfg, want=("c05",))
+        if res.get("draw_cap"):
+            raise DrawCap(res["draw_cap"])
         if res.get("rejected_up_front") or (res["errs"] and not counters["started"] and res["errs"][0][0].startswith("run-raises")):
             out["status"] = "rejected-up-front"
             out["detail"] = str(res.get("rejected_up_front") or res["errs"][0])[:200]
